@@ -58,6 +58,11 @@ func c06Step(x *engine.Exec) []engine.Failure {
 		dest[world.Pos{D: r.D, V: r.Dst, Denom: r.Denom}.Key()] = true
 	}
 	feeExp, _ := ref.onSlash(v, f, prev.Time)
+	if aborted {
+		// the reference assumed the full cut; what is really pending after the abort is re-read so that later transitions are
+		// judged correctly (second thorough loop: a later slash was reported against the wrong reference - a model error)
+		defer ref.resyncUnb(next)
+	}
 	x.Cnt.Inc("slash.checked")
 	for den, sh := range prev.Vals[v].ValShares {
 		if a, ok := prev.Assets[den]; ok && sh.Sign() > 0 && prev.Time.Before(a.RewardStartTime) {
@@ -186,6 +191,11 @@ func init() {
 			cfg := world.DefaultConfig()
 			cfg.Assets = append(cfg.Assets, world.AssetCfg{Denom: "ccc", Weight: "1", Min: "0", Max: "5", TakeRate: "0", StartOffset: 1000 * U})
 			cfg.DelFunds["ccc"] = "1000000000000"
+			// a denom of another length: "aaaa" sorts BEFORE "bbb" as a string (the order of a validator's share list) and AFTER
+			// it in the asset store, whose key is length-prefixed
+			cfg.Assets = append(cfg.Assets, world.AssetCfg{Denom: "aaaa", Weight: "1", Min: "0", Max: "5", TakeRate: "0"})
+			cfg.DelFunds["aaaa"] = "1000000000000"
+			s5 := []world.Op{opDel(0, 0, "aaaa", "1000"), opDel(1, 0, "bbb", "500"), opDel(1, 1, "aaaa", "300"), opDel(0, 1, "bbb", "70"), opDel(2, 0, "aaa", "11")}
 			user := func(n *engine.Node) []world.Op {
 				var ops []world.Op
 				ops = append(ops,
@@ -226,9 +236,9 @@ func init() {
 				Required: []string{"slash.checked", "slash.callback_aborted"},
 			}
 			if tier == "thorough" {
-				return []*engine.Scenario{mk("c06-slash", [][]world.Op{s1, s2, s3, s4}, []int{3, 3, 0, 2, 0}, 7), ab}
+				return []*engine.Scenario{mk("c06-slash", [][]world.Op{s1, s2, s3, s4, s5}, []int{3, 3, 0, 2, 0}, 7), ab}
 			}
-			return []*engine.Scenario{mk("c06-slash", [][]world.Op{s1, s2, s3, s4}, []int{2, 2, 0, 1, 0}, 5), ab}
+			return []*engine.Scenario{mk("c06-slash", [][]world.Op{s1, s2, s3, s4, s5}, []int{2, 2, 0, 1, 0}, 5), ab}
 		},
 		Assumptions: []string{
 			"fractions {0.01%, 1%, 5%, 1/3, 50%, 99%, 100%}; the case f=1 with the slashed validator holding every share of the asset (g undefined) is excluded from the proportionality check, staked total and custody are still checked",
